@@ -4,7 +4,7 @@
    statement-silent variants, classifies every stream for every decompression entry
    point with the decoder state machine (LZ!Route / Decode / ClassOf) and prints
 
-     G {fam, fmt, var, stream, expect, entries: [[entry, cls, why] ...]}
+     G {fam, fmt, var, nrefs, stream, expect, entries: [[entry, cls, why] ...]}
 
    cls "ok": the entry point must return Ok(expect); "err": must return Err;
    "okerr": Ok(expect) or Err; "open": Ok(anything) or Err.  Never a panic.
@@ -98,6 +98,7 @@ Line(var, s) ==
       sane == \A e \in oks : v[e].out = exp
   IN PrintT((IF sane THEN "G " ELSE "X ") \o
             ToJson([fam |-> fam, fmt |-> fmt, var |-> var, stream |-> s, expect |-> exp,
+                    nrefs |-> Cardinality({ i \in 1..Len(ts) : ts[i].k = "ref" }),
                     entries |-> [e \in 1..Len(v) |-> <<Entries[e], v[e].cls, v[e].why>>]]))
 
 Prefix(t, i) == IF i = 0 THEN <<>> ELSE SubSeq(t, 1, i)
